@@ -147,11 +147,22 @@ def dump_quantity(quantity, version=LATEST_VER):
     if (quantity.unit is None) or (quantity.unit == ''):
         return dump_decimal(quantity.value, version=version)
     else:
-        return 'n:%f %s' % (quantity.value, quantity.unit)
+        return 'n:%s %s' % (dump_number(quantity.value), quantity.unit)
 
 
 def dump_decimal(decimal, version=LATEST_VER):
-    return 'n:%f' % decimal
+    return 'n:%s' % dump_number(decimal)
+
+
+def dump_number(decimal):
+    # Non-finite values have their own spelling in Haystack JSON
+    if decimal != decimal:
+        return 'NaN'
+    elif decimal == float('inf'):
+        return 'INF'
+    elif decimal == float('-inf'):
+        return '-INF'
+    return '%f' % decimal
 
 
 def dump_bool(bool_value, version=LATEST_VER):
